@@ -470,13 +470,21 @@ func twinsCheckSchema(r *Rng, o *Out) *jsonapi.Schema {
 		"k1": {FromType: "d", FromName: "e", ToType: "a", ToName: "x", FromOne: true},
 		"k2": {FromType: "d", FromName: "e", ToType: "a", ToName: "y", FromOne: false},
 	}}
-	switch r.IntN(4) {
+	switch r.IntN(6) {
 	case 0:
 		rel := d.Rels["k2"]
 		rel.ToName = "z"
 		d.Rels["k2"] = rel
 	case 1:
 		delete(d.Rels, "k1")
+	case 2, 3:
+		// one twin sits under the key that is its name and is a plain one-way relationship;
+		// the one that points back to a.x sits under another key (consistent)
+		d.Rels = map[string]jsonapi.Rel{
+			"e":  {FromType: "d", FromName: "e", ToType: "a"},
+			"k1": {FromType: "d", FromName: "e", ToType: "a", ToName: "x", FromOne: true},
+		}
+		delete(a.Rels, "y")
 	}
 	s := &jsonapi.Schema{}
 	if r.bool() {
